@@ -224,6 +224,21 @@ func RandInts(k int) {
 // same "secret" again.
 func FromSecureSourceOnly(b []byte) bool { return true }
 
+// CanDiffer: under the engine, true iff some values of the random sources make
+// the two byte strings differ (false = they are the same bytes on every run,
+// e.g. a replayed buffer). Natively: the two values differ.
+func CanDiffer(a, b []byte) bool {
+	if len(a) != len(b) {
+		return true
+	}
+	for i := range a {
+		if a[i] != b[i] {
+			return true
+		}
+	}
+	return false
+}
+
 // Stub: under the engine, calls of the named function return zero values.
 func Stub(name string) {}
 
